@@ -241,11 +241,26 @@ theorem C11_types_closure (d : Dict) (rank : Nat → Nat) (h : Ranked d rank) (k
   unfold typesOf
   rw [mem_dedupBy, List.mem_cons, supStar_iff d rank h.sups h.2]
 
+/-- a loaded instance has one attribute per descriptor, for every dictionary whose entities declare each attribute name once -/
+theorem C11_mkInst_unique (d : Dict) (h : AttrNamesUnique d) (p : PInst) : UniqueAttrs (mkInst d p) := by
+  unfold mkInst
+  cases hk : p.kw with
+  | none => intro a ha; simp at ha
+  | some k =>
+    simp only
+    intro a ha b hb ho hn
+    have hkeys : ((zipAttrs (redeclOf d k) ((attrOrder d k).flatMap (fun e => (attrsOf d e).map (fun q => (e, q.1, q.2)))) p.vals).map
+        (fun a => (a.owner, a.name))).Nodup := by
+      rw [zipAttrs_keys, List.map_flatMap]
+      have := nodup_flatMap_pairs (fun e => (attrsOf d e).map (·.1)) (attrsOf_nodup d h) (attrOrder d k) (attrOrder_nodup d k)
+      simpa [List.map_map, Function.comp_def] using this
+    exact eq_of_nodup_keys (fun a : Attr => (a.owner, a.name)) _ hkeys a ha b hb (by simp [ho, hn])
+
 /-- **the resolver on dictionary + population**: when the inverse attribute has a slot (always, by `C11_slots_cover`) the
     result is `specRefs` of the loaded instances — with `mkInst` giving each instance the supertype closure of its keyword
     (`C11_types_closure`) and its attributes in `attrOrder` layout, and `mkIA` the descriptor `InitIAttrs` links -/
-theorem C11_exact_dict (d : Dict) (pop : List PInst) (x k : Nat) (iv : InvDecl) (hs : iv ∈ slots d k)
-    (hu : ∀ p ∈ pop, UniqueAttrs (mkInst d p)) (ha : iv.aggr = true) :
+theorem C11_exact_dict (d : Dict) (hd : AttrNamesUnique d) (pop : List PInst) (x k : Nat) (iv : InvDecl) (hs : iv ∈ slots d k)
+    (ha : iv.aggr = true) :
     resolveD d pop x k iv = .ok (specRefs (pop.map (mkInst d)) x (mkIA d iv)) := by
   unfold resolveD
   have : (slots d k).contains iv = true := by simpa using hs
@@ -254,7 +269,7 @@ theorem C11_exact_dict (d : Dict) (pop : List PInst) (x k : Nat) (iv : InvDecl) 
   · intro i hi
     rw [List.mem_map] at hi
     obtain ⟨p, hp, rfl⟩ := hi
-    exact hu p hp
+    exact C11_mkInst_unique d hd p
   · simpa [mkIA] using ha
 
 /-- dictionary of the witnesses below: 0 `tg` (inverse `byr : SET OF rel FOR one`), 1 `tsub < tg`, 2 `tsub2 < tsub`,
@@ -294,7 +309,7 @@ theorem C11_redeclared_witness :
 /-- non-vacuity: the demo dictionary (grand-supertype, diamond, redeclaration) is ranked, its instances have unique descriptors -/
 def demoRank (n : Nat) : Nat := if n = 0 ∨ n = 3 then 0 else if n = 2 ∨ n = 7 then 2 else if n ≤ 6 then 1 else 0
 
-example : Ranked demoDict demoRank :=
-  ⟨by decide, fun n => by unfold demoRank; split <;> (try split) <;> (try split) <;> simp [demoDict]⟩
+example : Ranked demoDict demoRank ∧ AttrNamesUnique demoDict :=
+  ⟨⟨by decide, fun n => by unfold demoRank; split <;> (try split) <;> (try split) <;> simp [demoDict]⟩, by unfold AttrNamesUnique; decide⟩
 
 end StepModel.LazyRefs
